@@ -57,12 +57,13 @@ ASSUME BoundaryCover
 ASSUME BlocksMinimal
 
 \* chunkings of the Write calls: split points are byte offsets (clipped to the message)
-Chunkings(f) == {"one", "bytes", "split1", "splitB-1", "splitB", "splitB+1", "empties"}
+\* "reuse": another hasher first digests a proper prefix of the same input slice (its padding must not leak into the input)
+Chunkings(f) == {"one", "bytes", "split1", "splitB-1", "splitB", "splitB+1", "empties", "reuse"}
 \* declared maximum (bytes written) for the variable-length sum, relative to the actual length n
 MaxLens(f, n) == LET B == Block(f) IN {n, n + 1, (n \div B + 1) * B, n + B + 3, 2 * B + 5} \ {m \in 0..(4 * B) : m < n \/ m = 0}
 
 Fixed == {[kind |-> "fixed", family |-> f, len |-> n, chunking |-> c, blocks |-> Blocks(f, n), pad |-> PadShape(f, n)] :
-             f \in Families, n \in 0..300, c \in {"one", "bytes", "split1", "splitB-1", "splitB", "splitB+1", "empties"}}
+             f \in Families, n \in 0..300, c \in Chunkings("sha256")}
 FixedCases == {x \in Fixed : x.len \in Lengths(x.family)}
 VarCases == UNION {UNION {{[kind |-> "varlen", family |-> f, len |-> n, max |-> m, minlen |-> ml, blocks |-> Blocks(f, n), pad |-> PadShape(f, n)] :
                              m \in MaxLens(f, n), ml \in {0, n}} : n \in Lengths(f)} : f \in {g \in Families : HasVarLen(g)}}
@@ -72,7 +73,8 @@ FieldCases == {[kind |-> "field", family |-> h, len |-> n, chunking |-> c, expor
                   h \in {"mimc", "poseidon2"}, n \in 0..5, c \in {"one", "each", "split1"}, e \in 0 - 1 .. 5}
 FieldOK(x) == x.export <= x.len /\ (x.family = "poseidon2" => x.export = 0 - 1)
 MerkleCases == {[kind |-> "merkle", leaves |-> n, index |-> i] : n \in {2, 3, 4, 5, 8}, i \in 0..7}
-TranscriptCases == {[kind |-> "transcript", challenges |-> k, bindings |-> b] : k \in 1..3, b \in {0, 1, 3}}
+\* dirty: the circuit uses the transcript's hasher for something else between creating the transcript and the challenges
+TranscriptCases == {[kind |-> "transcript", challenges |-> k, bindings |-> b, dirty |-> d] : k \in 1..3, b \in {0, 1, 3}, d \in BOOLEAN}
 
 VARIABLES cur, done
 vars == <<cur, done>>
